@@ -218,6 +218,11 @@ def gen(tier, seed):
         if pr:
             yield 'fe %s #fe-sq2-directed' % ' '.join(pr)
             n += 1
+    # the public constants: their encodings (sqrt(-1) is the root 2^((p-1)/4) of RFC 8032, d = -121665/121666, 2d), and programs that use them
+    yield 'consts #consts'
+    for _ in range(200 if thorough else 40):
+        x = le32(rng.choice(FE_INPUTS) if rng.below(3) == 0 else int.from_bytes(rng.bytes(32), 'little'))
+        yield 'fe in.%s k.SQRTM1 k.D k.D2 k.ONE k.ZERO sq.1 add.6.4 eq.7.5 add.2.2 eq.8.3 mul.0.1 mul.0.2 mul.0.3 sub.11.10 eq.12.10 neg.1 inv.1 eq.13.14 #fe-constants' % x
     for v in FE_INPUTS:
         yield 'fe in.%s in.%s sqn.0.0 sqn.1.0 sqn.2.1 sq.0 eq.2.0 eq.5.4 #fe-sqn0' % (le32(v), le32(rng.choice(FE_INPUTS)))
     for v in FE_INPUTS:
@@ -333,6 +338,8 @@ def fe_eval(steps):
         p = s.split('.')
         if p[0] == 'in':
             regs.append((int.from_bytes(expand(p[1]), 'little') & M255) % P)
+        elif p[0] == 'k':
+            regs.append({'ZERO': 0, 'ONE': 1, 'SQRTM1': o.SQRTM1, 'D': o.D, 'D2': 2 * o.D % P}[p[1]])
         elif p[0] == 'add':
             regs.append((regs[int(p[1])] + regs[int(p[2])]) % P)
         elif p[0] == 'sub':
@@ -404,6 +411,8 @@ def expected(f, flip_decoded=False):
         return a
     if op == 'fe':
         return fe_eval(f[1:])
+    if op == 'consts':
+        return [le32(0), le32(1), le32(o.SQRTM1), le32(o.D), le32(2 * o.D % P), le32(0), o.ed_encode((0, 1)).hex()]
     if op == 'sc_reduce':
         return [(int.from_bytes(expand(f[1]), 'little') % L).to_bytes(32, 'little').hex()]
     if op == 'sc_canon':
